@@ -6,14 +6,20 @@ import (
 	"bytes"
 	"context"
 	"fmt"
+	"go/constant"
+	"go/types"
 	"os"
 	"os/exec"
 	"path/filepath"
+	"sort"
 	"strconv"
 	"strings"
 	"time"
 
+	"golang.org/x/tools/go/ssa"
+
 	"github.com/BlackVectorOps/semantic_firewall/v3/pkg/analysis/ir"
+	"github.com/BlackVectorOps/semantic_firewall/v3/pkg/diff"
 )
 
 // Suite "ssasem": ties the Lean SSA interpreter (Model/Canon/Sem.lean) to reality and checks, on real
@@ -365,10 +371,55 @@ func suiteSsaSem(c *Ctx) error {
 		if err := semOneProgram(c, fmt.Sprintf("sem%d", pi), names, body.String()); err != nil {
 			return err
 		}
+		if err := semIsoRound(c, fmt.Sprintf("sem%d", pi), "package semgen\n\n"+body.String(), ""); err != nil {
+			return err
+		}
 		// the shared generator's executable functions
 		gp := GenProgramW(pr.Fork(), "genpkg", 6, 0, false)
 		if err := semSharedProgram(c, fmt.Sprintf("semx%d", pi), gp); err != nil {
 			return err
+		}
+		// the same program against a cosmetic variant (operands of commutative integer operations
+		// exchanged, >=/> tests written the other way round): the zipper has to use its swap rule
+		gsrc := gp.Render(nil, nil, 0)
+		vp := *gp
+		vp.Funcs = nil
+		changed := false
+		for _, f := range gp.Funcs {
+			nf := f
+			for _, kind := range []string{"commute", "commute", "flip"} {
+				if g2, _ := applyRewrite(pr.Fork(), nf, kind); g2 != nil {
+					nf, changed = g2, true
+				}
+			}
+			vp.Funcs = append(vp.Funcs, nf)
+		}
+		if err := semIsoRound(c, fmt.Sprintf("semx%d", pi), gsrc, ""); err != nil {
+			return err
+		}
+		if changed {
+			if err := semIsoRound(c, fmt.Sprintf("semv%d", pi), gsrc, vp.Render(nil, nil, 0)); err != nil {
+				return err
+			}
+		}
+		// behaviour-changing edits: the zipper normally reports them modified; IF it reports one preserved,
+		// its maps still have to be an isomorphism (they cannot be: the theorem would make the behaviours equal)
+		for ki, kind := range []string{"swap-branches", "bad-commute-sub", "cmp-op"} {
+			ep := *gp
+			ep.Funcs = nil
+			edited := false
+			for _, f := range gp.Funcs {
+				nf := f
+				if g2, _ := applyRewrite(pr.Fork(), f, kind); g2 != nil {
+					nf, edited = g2, true
+				}
+				ep.Funcs = append(ep.Funcs, nf)
+			}
+			if edited {
+				if err := semIsoRound(c, fmt.Sprintf("seme%d_%d", pi, ki), gsrc, "//edited\n"+ep.Render(nil, nil, 0)); err != nil {
+					return err
+				}
+			}
 		}
 	}
 	return nil
@@ -611,4 +662,160 @@ func semSharedProgram(c *Ctx, dir string, p *GProg) error {
 		rows = append(rows, []string{"i" + in[0], "i" + in[1], s, xs})
 	}
 	return semCompare(c, dir, src, fns, native, rows, false)
+}
+
+// ---------------------------------------------------------------- isomorphism round (C04)
+
+// semIsoSupported: every operand of every instruction is of a kind `operandMatches` of the model knows
+func semIsoSupported(fn *ssa.Function) bool {
+	for _, b := range fn.Blocks {
+		for _, in := range b.Instrs {
+			if _, ok := in.(*ssa.DebugRef); ok {
+				continue
+			}
+			for _, op := range in.Operands(nil) {
+				if op == nil || *op == nil {
+					return false
+				}
+				switch v := (*op).(type) {
+				case ssa.Instruction, *ssa.Parameter, *ssa.Builtin:
+				case *ssa.Const:
+					if v.Value == nil {
+						if _, ok := v.Type().Underlying().(*types.Slice); !ok {
+							return false
+						}
+					} else if k := v.Value.Kind(); k != constant.Int && k != constant.Bool && k != constant.String {
+						return false
+					}
+				default:
+					return false
+				}
+			}
+		}
+	}
+	return true
+}
+
+// semIsoPair runs the REAL zipper on (old, new); when it reports the pair preserved with every
+// instruction matched, the zipper's own maps must pass the model's isoCheck (hypothesis of
+// C04_sem_iso_same_behaviour).
+func semIsoPair(c *Ctx, what string, oldFn, newFn *ssa.Function, src string) error {
+	z, err := diff.NewZipper(oldFn, newFn, ir.KeepAllLiteralsPolicy)
+	if err != nil {
+		c.Skip("iso_zipper_refused")
+		return nil
+	}
+	art, err := z.ComputeDiff()
+	if err != nil || art == nil {
+		c.Skip("iso_zipper_error")
+		return nil
+	}
+	c.Count("iso_pairs_" + what)
+	if !art.Preserved {
+		c.Count("iso_not_preserved_" + what)
+		if os.Getenv("VERIF_SEM_DEBUG") != "" && what == "copy" {
+			fmt.Fprintf(os.Stderr, "NOTPRES %s matched=%d added=%v removed=%v\n", oldFn.Name(), art.MatchedNodes, art.Added, art.Removed)
+		}
+		return nil
+	}
+	fwd, _ := z.VerifInstrMaps()
+	ids := func(fn *ssa.Function) map[ssa.Instruction]int {
+		m := map[ssa.Instruction]int{}
+		id := 0
+		for _, b := range fn.Blocks {
+			for _, in := range b.Instrs {
+				m[in] = id
+				id++
+			}
+		}
+		return m
+	}
+	oldIDs, newIDs := ids(oldFn), ids(newFn)
+	var im, bm []string
+	for _, b := range oldFn.Blocks {
+		for _, in := range b.Instrs {
+			p, ok := fwd[in]
+			if !ok {
+				c.Skip("iso_preserved_with_unmatched_virtualized_phi")
+				return nil
+			}
+			im = append(im, fmt.Sprint(newIDs[p]))
+		}
+		if len(b.Instrs) == 0 {
+			c.Skip("iso_empty_block")
+			return nil
+		}
+		bm = append(bm, fmt.Sprint(fwd[b.Instrs[len(b.Instrs)-1]].Block().Index))
+	}
+	_ = oldIDs
+	if !semIsoSupported(oldFn) || !semIsoSupported(newFn) {
+		c.Skip("iso_operand_kind_outside_the_model")
+		return nil
+	}
+	lines := append([]string{}, ExportFunction(oldFn)...)
+	lines = append(lines, "keep")
+	lines = append(lines, ExportFunction(newFn)...)
+	lines = append(lines, "iso\t"+strings.Join(im, ",")+"\t"+strings.Join(bm, ","))
+	outs, err := RunModel(c.Model, "canon", lines)
+	if err != nil {
+		return err
+	}
+	c.Res.Evaluations++
+	c.Count("iso_checked_" + what)
+	if got := outs[len(outs)-1]; got != "1" {
+		c.ViolateNoInput("C04", "C04/preserved-without-isomorphism", fmt.Sprintf("%s %s: the zipper reports the pair preserved with every instruction matched, but its maps are not a control-flow respecting, order-preserving correspondence of equal operations (isoCheck = %s)", what, oldFn.Name(), got),
+			map[string]interface{}{"broken": "hypothesis isoCheck of C04_sem_iso_same_behaviour on the real zipper's final maps", "function": oldFn.Name(), "instr_map": im, "block_map": bm, "source": src})
+	}
+	return nil
+}
+
+// semIsoRound: every function against a separately loaded copy of itself, and the shared generator's
+// executable functions against their commuted / flipped variants
+func semIsoRound(c *Ctx, dir, src string, variant string) error {
+	load := func(sub, text string) (map[string]*ssa.Function, error) {
+		path, err := writeModule(c.Work, dir+sub, "a.go", text)
+		if err != nil {
+			return nil, err
+		}
+		res, err := fingerprintFile(path, text, ir.KeepAllLiteralsPolicy)
+		if err != nil {
+			return nil, err
+		}
+		m := map[string]*ssa.Function{}
+		for _, fr := range res {
+			if fn := fr.GetSSAFunction(); fn != nil {
+				m[semShort(fr.FunctionName)] = fn
+			}
+		}
+		return m, nil
+	}
+	a, err := load("-isoA", src)
+	if err != nil {
+		return err
+	}
+	what := "copy"
+	text := src
+	if strings.HasPrefix(variant, "//edited\n") {
+		what, text = "edited", strings.TrimPrefix(variant, "//edited\n")
+	} else if variant != "" {
+		what, text = "cosmetic-variant", variant
+	}
+	b, err := load("-isoB", text)
+	if err != nil {
+		return fmt.Errorf("variant does not load: %v", err)
+	}
+	var names []string
+	for n := range a {
+		names = append(names, n)
+	}
+	sort.Strings(names)
+	for _, n := range names {
+		if b[n] == nil || n == "init" {
+			continue
+		}
+		if err := semIsoPair(c, what, a[n], b[n], src); err != nil {
+			return err
+		}
+	}
+	return nil
 }
